@@ -13,9 +13,11 @@ mv $DEMO /tmp/seeded_demo_$ID.rs
 suite=$(cargo test --workspace --no-fail-fast --offline 2>&1 | grep -E "^test result" | awk '{f+=$6} END {print f+0}')
 mv /tmp/seeded_demo_$ID.rs $DEMO
 with=$(cargo test -p paseto-test --test seeded_demo --offline 2>&1 | grep -E "^test result" | tail -1)
-git stash push -q -- $(git diff --name-only | grep -v seeded_demo) 
+# (no `git stash`: the stash is shared by all worktrees of a repository)
+git diff -- $(git diff --name-only | grep -v seeded_demo) > /tmp/verify_seed_$ID.diff
+git apply -R /tmp/verify_seed_$ID.diff
 without=$(cargo test -p paseto-test --test seeded_demo --offline 2>&1 | grep -E "^test result" | tail -1)
-git stash pop -q
+git apply /tmp/verify_seed_$ID.diff; rm -f /tmp/verify_seed_$ID.diff
 echo "suite_failures_with_change=$suite"
 echo "demo_with_change: $with"
 echo "demo_without_change: $without"
